@@ -10,6 +10,11 @@ def run(ctx):
                      ledger="known/C14.ledger", extra_args=["-patterns", npat])
     # the PikeVM model of Pike.v vs the real nfa.PikeVM (M), and the real PikeVM vs the reference (R)
     generic.standard(ctx, [], "pike-cases", "pikevm-model-vs-implementation", lists=("M", "R"), seed=1)
+    # the lazy DFA model of Dfa.v (determinisation, start states, byte-accounted cache with clears, search loops) replays
+    # observed call HISTORIES on one cache (M: model = implementation); unanchored results are also compared with the
+    # bounded backtracker on the Go side (recorded failing inputs in known/C14dfa.ledger)
+    generic.standard(ctx, ["Props_Dfa"], "dfa-cases", "lazydfa-model-vs-implementation", lists=("M",), seed=1,
+                     ledger="known/C14dfa.ledger", timeout=3000)
     ctx.coverage["explanation"] = (
         "Coq: the bounded backtracker (all entry points, both modes, any reusable state) equals the reference search; declines exactly "
         "when CanHandle is false. Per run: every engine entry point (PikeVM x 12, BoundedBacktracker x 4, lazy.DFA x 7 forward under 5 "
@@ -18,5 +23,10 @@ def run(ctx):
         "byte-class representatives and all start offsets; recorded failing inputs in an exact ledger. PikeVM (Pike.v, PikeSpan.v): the "
         "model of IsMatch / SearchAt (priority-ordered thread lists, sparse-set visited, leftmost-first cut) is proved to return exactly "
         "the reference span for every well-formed NFA, haystack and offset (pike_search_is_ref), and is run against the real nfa.PikeVM "
-        "on every check (lists M: model = implementation, R: implementation = reference). Lazy DFA and one-pass DFA: see the Dfa module "
-        "if present in this tree; otherwise compared with the reference only.")
+        "on every check (lists M: model = implementation, R: implementation = reference). Lazy DFA (Dfa.v, DfaRef.v, DfaCache.v, DfaTop.v): "
+        "determinisation with 1-byte match delay, look-behind start states, the byte-accounted cache with clears and the search "
+        "loops are modelled; proved for all NFAs without look-around, haystacks, offsets and caches: the cached search returns the "
+        "pure DFA answer or falls back (cache transparency, capacity irrelevance, history independence), IsMatch = reference, "
+        "no-match iff the reference has none, the reported end is an end of the LEFTMOST start (priority among those ends: "
+        "PARTIAL), anchored search complete; the model replays observed call histories of the real lazy.DFA on every check. "
+        "One-pass DFA: compared with the anchored reference only.")
